@@ -20,6 +20,34 @@ NA = {
 }
 
 CHECKS = {
+    "C12": dict(
+        technique="flow-sensitive may-aliasing domain over Node.copy (which container fields of the clone still alias the original's), "
+                  "freshness classification of re-binding expressions, marker dataflow for id re-binding / registration order, pairing rule for parent links",
+        text="Independence is decided on all paths of Node.copy (no container of the clone is the original's at return, child list holds "
+             "only recursive copies); equality by field coverage of the shallow clone; registration after the id is re-bound.",
+        note="uuid1 uniqueness and value equality of the (immutable) copied strings are not decided",
+        ref="DESIGN.md section 3, C12"),
+    "C13": dict(
+        technique="must-dataflow 'map re-bound to a fresh dict' dominating every in-place namespace-map mutation in the operation alphabet, "
+                  "receiver classification of namespace writes, identity-capture ordering, guard dominance in add_child",
+        text="Partial: the copy-on-write discipline that keeps shared namespace dicts from leaking outside the subtree is decided on all "
+             "paths; the visibility semantics over whole histories is not.",
+        note="fix_nsmap/set_nsmap are outside the property's alphabet (noted only); freshness idioms: {}, dict(), comprehension, deepcopy/copy, .copy()",
+        ref="DESIGN.md section 3, C13"),
+    "C14": dict(
+        technique="marker dataflow (must-pass / must-follow) for register-on-create, discard=>unregister and unregister=>detached pairings; "
+                  "who-may-write by effect analysis; structure of delete_node_instance",
+        text="Partial: the registration/unregistration discipline is decided on all paths of the creating and discarding operations; "
+             "id uniqueness (uuid1) is runtime and not decided.",
+        note="documented discarders: prune, expand, replace_child; plain remove_child (caller keeps the node) is not a discard",
+        ref="DESIGN.md section 3, C14"),
+    "C18": dict(
+        technique="derived field-coverage set comparison, loop-shape rule on the child loop, symmetry classification of dict comparisons, "
+                  "guards evaluated on equal/different abstract values",
+        text="Which parts of two trees are compared, and how, is decided completely for Node.is_equal (field coverage incl. fields "
+             "added later, universal child loop, symmetric dict comparison, guard polarity).",
+        note="the is-same-object shortcut at the top of is_equal is outside the property (distinct trees)",
+        ref="DESIGN.md section 3, C18"),
     "C09": dict(
         technique="marker dataflow for insertion/parent-link pairing on all paths, who-may-write scan, guard-fact bounds for every "
                   "subscript in shift, swap/returned-index tracking domain, escape analysis, validate-then-mutate ordering",
